@@ -2,6 +2,10 @@
 harness-set names defined in lib/kani_sets.py."""
 
 PROPS = {
+    'C10': {'units': ['U-UTIL'], 'kani': 'C10', 'level': 'proof',
+            'assumptions': ['the attempt function (_impl) is replaced by a scripted recorder in the wiring harnesses: "same result as with no faults" relies on the attempt being a function of its (unchanged) arguments and the server'],
+            'bounded': ['retry wrappers: Kani harnesses for r in {0,1} and 3 scripted attempts over 5 outcome classes (the helper retry_on_timeout itself is proved by Verus for every r, unbounded)'],
+            'not_covered': ['quake::client::get_data and mindustry::query_with_retries wrappers: their Kani harnesses do not terminate (>20 min)', 'legacy_v1_4 / legacy_vb1_8 wrappers (same shape as legacy_v1_6)']},
     'C15': {'units': [], 'kani': 'C15', 'level': 'proof',
             'assumptions': ['string contents fixed in the harnesses: accessor identity is checked by pointer, which is independent of content',
                             'HashMap/HashSet fields are empty tables with fixed hash keys (RandomState::new needs a syscall Kani cannot model)'],
